@@ -76,7 +76,7 @@ def run(ctx):
             # skip edge
             for st in skip_targets:
                 try:
-                    paths = explore(f, start=st, is_effect=formatter, max_paths=3000)
+                    paths = explore(f, start=st, is_effect=formatter, max_paths=3000, program=p, inline="effects", inline_effects=True)
                 except TooManyPaths:
                     detail.append("skip edge not explored (too many paths)")
                     continue
